@@ -90,6 +90,9 @@ fn finish(head: String, res: Result<Option<Obs>, String>) -> String {
                 "fail:constructed_component_does_not_verify".to_string()
             } else if o.parse == "diff" || o.parse == "err" || o.parse == "panic" {
                 format!("fail:parse_back_{}", o.parse)
+            } else if o.count != o.len8 || o.count != o.len64 {
+                // C18: "serialises ... to exactly the number of bits it reports"
+                format!("fail:accepted_component_reports_{}_bits_but_writes_{}", o.count, o.len8)
             } else {
                 "ok".to_string()
             };
